@@ -376,6 +376,7 @@ func runCase(r *hxlib.Run, c *Case) {
 		if k, nt := nontrivialKey(d, wireFlag, len(frame)); nt {
 			r.NonTrivial(k)
 		}
+		rewrite(r, c, d, &o, cr, frame, emit)
 		stream = append(stream, frame...)
 		specs = append(specs, frameSpec(d, frame))
 		ends = append(ends, len(stream))
@@ -413,6 +414,60 @@ func runCase(r *hxlib.Run, c *Case) {
 	}
 	if o.Err != io.EOF || o.Pos != len(stream) {
 		fail(r, "stream:end:"+class(sent[0]), fmt.Sprintf("after the last frame the reader answers %v at %d (stream has %d bytes)", o.Err, o.Pos, len(stream)), c)
+	}
+}
+
+// rewrite hands the packet object the encoder has just written to the encoder AGAIN (a broadcast loop encodes one
+// object once per peer; a resend does the same): it carries the codec's wire bits now. The second frame must be the
+// first one, byte for byte (theorem C01_rewrite_same about the model) — hence it decodes to the same packet. With an
+// encryptor the check is limited to what the unchanged library supports: every supported cipher encrypts IN PLACE and
+// BodyToBytes hands out the packet's own byte slice, so a byte body that went through a cipher uncompressed has been
+// overwritten on the sender's side by the first call (recorded observation, not judged here).
+func rewrite(r *hxlib.Run, c *Case, d *hxcodec.Pkt, o *hxcodec.EncObs, cr crypt, frame []byte, emit bool) {
+	if o.After == nil || strings.HasPrefix(c.Cipher, "x:") {
+		return
+	}
+	if len(frame) > 256<<10 && len(frame)%4 != 0 && !r.Thorough() {
+		r.Count("rewrite:skipped-large")
+		return // quick tier: one large frame in four
+	}
+	wireFlag := frame[3]
+	if d.V == 2 {
+		wireFlag = frame[4]
+	}
+	if cr.enc != nil && wireFlag&1 == 0 {
+		r.Count("rewrite:skipped-in-place-cipher")
+		return
+	}
+	if emit {
+		// the model answers the same question: an encode whose flag argument already carries the codec bits
+		d2 := *d
+		d2.Flag = uint8(o.After.Flag())
+		o2 := hxcodec.Encode(&d2)
+		op, impl := hxcodec.EncLine(&d2, &o2)
+		r.Op(op, impl)
+	}
+	cr2 := cryptOf(c, d) // a fresh cryptor pair, as the first call had
+	w := &hxcodec.RecWriter{}
+	var n int
+	var err error
+	pan := hxlib.Guard(func() { n, err = hxcodec.Encoder(d.V, d.Thr).WritePacket(w, cr2.enc, o.After) })
+	var frame2 []byte
+	for _, b := range w.Writes {
+		frame2 = append(frame2, b...)
+	}
+	r.Count("rewrite:checked")
+	switch {
+	case pan != "":
+		fail(r, "rewrite:panic:"+class(d), "encoding the same packet object a second time panics: "+pan, c)
+	case err != nil:
+		fail(r, "rewrite:error:"+class(d), fmt.Sprintf("encoding the same packet object a second time fails: %v", err), c)
+	case n != len(frame) || !bytes.Equal(frame2, frame):
+		k := 0
+		for k < len(frame) && k < len(frame2) && frame[k] == frame2[k] {
+			k++
+		}
+		fail(r, "rewrite:differs:"+class(d), fmt.Sprintf("the same packet object (wire flag %#x after the first call) encoded a second time gives a different frame: %d bytes then %d bytes, first difference at byte %d — the second frame does not carry the body the first one did", wireFlag, len(frame), len(frame2), k), c)
 	}
 }
 
